@@ -52,9 +52,11 @@ class KeyMap:
         return out
 
 
-def make_points(locator, seed, n, box, extra=None, bisect_steps=11):
+def make_points(locator, seed, n, box, extra=None, bisect_steps=11,
+                key_fn=None):
     """Uniform points in the box plus near-boundary points found by bisecting
-    segments whose end points have different model owners."""
+    segments whose end points have different model keys (owner chain by
+    default, or the integer array returned by ``key_fn(P)``)."""
     rng = np.random.Generator(np.random.PCG64(int(seed)))
     n_uni = max(8, n // 2)
     U = rng.uniform(-box, box, (n_uni, 3))
@@ -62,9 +64,12 @@ def make_points(locator, seed, n, box, extra=None, bisect_steps=11):
     U[: n_uni // 3] *= 0.4
     if extra is not None and len(extra):
         U = np.vstack([U, np.asarray(extra, dtype=float).reshape(-1, 3)])
-    km = KeyMap()
-    loc = locator.locate(U)
-    ku = km.ids(loc)
+    if key_fn is None:
+        km = KeyMap()
+
+        def key_fn(Q):
+            return km.ids(locator.locate(Q))
+    ku = key_fn(U)
     m = len(U)
     # candidate pairs: random pairs of points
     n_pairs = max(8, n // 2)
@@ -78,11 +83,11 @@ def make_points(locator, seed, n, box, extra=None, bisect_steps=11):
     ka = ku[ia[diff]].copy()
     for _ in range(bisect_steps):
         M = 0.5 * (A + B)
-        kmid = km.ids(locator.locate(M))
+        kmid = key_fn(M)
         same = kmid == ka
         A[same] = M[same]
         B[~same] = M[~same]
-    # A and B now straddle an owner change at distance ~ box * 2^-steps;
+    # A and B now straddle a key change at distance ~ box * 2^-steps;
     # push them a little apart so that they are decidable
     D = B - A
     nrm = np.linalg.norm(D, axis=1, keepdims=True)
